@@ -1,0 +1,62 @@
+// Copyright 2020-2025 Buf Technologies, Inc.
+//
+// Licensed under the Apache License, Version 2.0 (the "License");
+// you may not use this file except in compliance with the License.
+// You may obtain a copy of the License at
+//
+//      http://www.apache.org/licenses/LICENSE-2.0
+//
+// Unless required by applicable law or agreed to in writing, software
+// distributed under the License is distributed on an "AS IS" BASIS,
+// WITHOUT WARRANTIES OR CONDITIONS OF ANY KIND, either express or implied.
+// See the License for the specific language governing permissions and
+// limitations under the License.
+
+//go:build verif
+
+package bufmigrate
+
+// Contracts for the gocv verifier (see /verif/DESIGN.md). Comment-only.
+//
+// C16, migration to v2: the lint/breaking settings that are not rule selections are carried over unchanged:
+// each accessor of the source config is passed to the corresponding constructor parameter, and the check
+// config is the one computed by equivalentCheckConfigInV2 for the right rule type.
+//
+// The rule-selection translation itself runs the check client (whole-pipeline oracle): which rules come out is
+// not covered. Covered: the client is asked about the rule type that was passed in, the result is a v2 check
+// config, and a module whose checks are switched off must stay switched off (property: "including modules
+// whose checks are switched off"; Lint/Breaking return immediately for a Disabled() config, so an enabled
+// translation changes the lint and breaking results).
+//@ trusted pure interface bufconfig.CheckConfig
+//@ trusted pure interface bufconfig.LintConfig
+//@ trusted pure interface bufconfig.BreakingConfig
+//@ func equivalentCheckConfigInV2(ctx, logger, ruleType, checkConfig) (r, err)
+//@   property C16
+//@   modifies heap, ghost.e_migrateRuleType
+//@   ensures rule-type-used: err == nil ==> ghost.e_migrateRuleType == ruleType
+//@   ensures result-is-v2: err == nil ==> r != nil && cast(*bufconfig.checkConfig, r).fileVersion == bufconfig.FileVersionV2
+//@   ensures disabled-preserved: err == nil && checkConfig.Disabled() ==> cast(*bufconfig.checkConfig, r).disabled
+//@   canary ensures err != nil
+//
+//@ func equivalentLintConfigInV2(ctx, logger, lintConfig) (r, err)
+//@   property C16
+//@   modifies heap, ghost.e_migrateRuleType
+//@   ensures error-propagated: err != nil ==> r == nil
+//@   ensures lint-rules: err == nil ==> ghost.e_migrateRuleType == check.RuleTypeLint
+//@   ensures check-config-is-v2: err == nil ==> cast(*bufconfig.checkConfig, cast(*bufconfig.lintConfig, r).CheckConfig).fileVersion == bufconfig.FileVersionV2
+//@   ensures enum-zero-value-suffix: err == nil ==> cast(*bufconfig.lintConfig, r).enumZeroValueSuffix == lintConfig.EnumZeroValueSuffix()
+//@   ensures rpc-same: err == nil ==> cast(*bufconfig.lintConfig, r).rpcAllowSameRequestResponse == lintConfig.RPCAllowSameRequestResponse()
+//@   ensures rpc-empty-requests: err == nil ==> cast(*bufconfig.lintConfig, r).rpcAllowGoogleProtobuEmptyRequests == lintConfig.RPCAllowGoogleProtobufEmptyRequests()
+//@   ensures rpc-empty-responses: err == nil ==> cast(*bufconfig.lintConfig, r).rpcAllowGoogleProtobufEmptyResponses == lintConfig.RPCAllowGoogleProtobufEmptyResponses()
+//@   ensures service-suffix: err == nil ==> cast(*bufconfig.lintConfig, r).serviceSuffix == lintConfig.ServiceSuffix()
+//@   ensures comment-ignores: err == nil ==> cast(*bufconfig.lintConfig, r).allowCommentIgnores == lintConfig.AllowCommentIgnores()
+//@   canary ensures err != nil
+//
+//@ func equivalentBreakingConfigInV2(ctx, logger, breakingConfig) (r, err)
+//@   property C16
+//@   modifies heap, ghost.e_migrateRuleType
+//@   ensures error-propagated: err != nil ==> r == nil
+//@   ensures breaking-rules: err == nil ==> ghost.e_migrateRuleType == check.RuleTypeBreaking
+//@   ensures check-config-is-v2: err == nil ==> cast(*bufconfig.checkConfig, cast(*bufconfig.breakingConfig, r).CheckConfig).fileVersion == bufconfig.FileVersionV2
+//@   ensures ignore-unstable: err == nil ==> cast(*bufconfig.breakingConfig, r).ignoreUnstablePackages == breakingConfig.IgnoreUnstablePackages()
+//@   canary ensures err != nil
